@@ -57,7 +57,7 @@ STUBS = """
     pub(crate) fn generate_expr(&mut self, expr: &Expr, pos: usize, high_byte: bool, second_time: bool) -> (res: Result<ExprType, Error>)
         ensures final(self).compiler_state == old(self).compiler_state,
             res is Ok ==> res->Ok_0 == operand_of(*expr, high_byte),
-            res is Ok ==> final(self).gh@.passes == old(self).gh@.passes && final(self).gh@.lhs == old(self).gh@.lhs && final(self).gh@.visits == old(self).gh@.visits.push(Visit { e: *expr, high: high_byte, second_time }),
+            res is Ok ==> final(self).gh@.passes == old(self).gh@.passes && final(self).gh@.lhs == old(self).gh@.lhs && final(self).gh@.saved_outside == old(self).gh@.saved_outside && final(self).gh@.visits == old(self).gh@.visits.push(Visit { e: *expr, high: high_byte, second_time }),
             // an element access through a general subscript parks Y (it is rejected while Y is parked already: U-subscript)
             (res is Ok && parks_y(*expr) && !second_time) ==> !old(self).saved_y && final(self).saved_y && final(self).gh@.y_is_subscript_of == Some(*expr),
             (res is Ok && parks_y(*expr) && second_time) ==> !old(self).saved_y && final(self).saved_y && final(self).gh@.y_is_subscript_of == Some(*expr),
@@ -75,6 +75,7 @@ STUBS = """
     #[verifier::external_body]
     pub(crate) fn asm_restore_y(&mut self)
         requires old(self).saved_y,
+            !old(self).gh@.saved_outside, //@ C01:assign-leaves-the-y-of-an-enclosing-expression-parked
         ensures final(self).compiler_state == old(self).compiler_state, final(self).saved_y == old(self).saved_y, final(self).tmp_in_use == old(self).tmp_in_use,
             final(self).carry_flag_ok == old(self).carry_flag_ok, final(self).flags == old(self).flags,
             final(self).gh@ == (G { y_is_subscript_of: None::<Expr>, ..old(self).gh@ }),
@@ -84,7 +85,9 @@ STUBS = """
 HEADER = """    fn arm_assign(&mut self, lhs: &Box<Expr>, rhs: &Box<Expr>, pos: usize, high_byte: bool) -> (res: Result<ExprType, Error>)
         requires
             old(self).gh@.passes.len() == 0, old(self).gh@.visits.len() == 0, old(self).gh@.lhs == Some(**lhs),
-            !old(self).saved_y, old(self).gh@.y_is_subscript_of is None,
+            // Y may have been parked by an enclosing expression (this assignment loads a parameter of a call in the middle of it)
+            old(self).gh@.saved_outside == old(self).saved_y, !old(self).saved_y ==> old(self).gh@.y_is_subscript_of is None,
+            old(self).saved_y ==> old(self).gh@.y_is_subscript_of is Some && old(self).gh@.y_is_subscript_of != old(self).gh@.lhs,
             !(parks_y(**lhs) && parks_y(**rhs)),          // both sides through a general subscript: rejected by the second element access (U-subscript)
         ensures
             final(self).compiler_state == old(self).compiler_state,
@@ -113,6 +116,9 @@ def candidates(f):
         prog("short t[4]; unsigned char b, ry; short s;", "Y = 1; s = t[b]; ry = Y;", {"init": {"b": b}, "init_addr": {"t+%d" % b: 0x78, "t+%d" % (b + 4): 0x56}, "expect16": {"s": 0x5678}, "expect": {"ry": 1}}, "s = t[b], b=%d" % b)
         prog("short t[4]; unsigned char b, ry;", "Y = 1; t[b] = 1000; ry = Y;", {"init": {"b": b}, "expect": {"t+%d" % b: 1000 & 255, "t+%d" % (b + 4): 1000 >> 8, "ry": 1}}, "t[b] = 1000, b=%d" % b)
         prog("short t[4]; unsigned char b; short s;", "X = b; t[X] = s;", {"init": {"b": b}, "init16": {"s": 0x1234}, "expect": {"t+%d" % b: 0x34, "t+%d" % (b + 4): 0x12}}, "t[X] = s, X=%d" % b)
+    d = "unsigned char a, b, r; unsigned char m[4]; unsigned char f2(unsigned char p) { return p ^ 0x55; }"
+    for b in (0, 2):
+        prog(d, "Y = 1; r = m[b] - f2(128); a = Y;", {"init": {"b": b}, "init_addr": {"m+%d" % b: 42}, "expect": {"r": (42 - (128 ^ 0x55)) & 255, "a": 1}}, "a parameter is loaded while Y is parked for m[b] (rejected, or right), b=%d" % b)
     return out
 
 
@@ -155,7 +161,7 @@ def build(repo):
     arm.sub(r"^\s*//[^\n]*\n", "", "comments dropped (one of them holds commented-out code with an unbalanced quote for the masker)", expect=(0, 12))
     text = common.PRELUDE + common.header_comment(NAME, cuts) + "verus! {\n" + (SPECS % {"types": "\n".join(tys), "variable_shim": vshim}) + \
         "impl<'a> GeneratorState<'a> {\n" + STUBS + (HEADER % {"arm": arm.text}) + "\n}\n" + common.CANARY + "\n} // verus!\n"
-    text = text.replace("pub y_is_subscript_of: Option<Expr>,", "pub y_is_subscript_of: Option<Expr>,\n    pub lhs: Option<Expr>,              // the destination expression of the assignment under contract")
+    text = text.replace("pub y_is_subscript_of: Option<Expr>,", "pub y_is_subscript_of: Option<Expr>,\n    pub lhs: Option<Expr>,              // the destination expression of the assignment under contract\n    pub saved_outside: bool,            // Y was parked before this assignment started (by an enclosing expression)")
     u.text[None] = text
     u.rewrites = common.collect_rewrites(cuts)
     u.dropped = ["R6 shim environment", "the other arms of generate_expr"]
